@@ -218,6 +218,22 @@ def handle (op : String) (j : Json) : Except String Json := do
           let d := (dense.drop x.1).take (x.2.1 - x.1)
           if stranded && !x.2.2 then d.reverse else d))),
         ("at", intList (ps.map (fun p => dense.getD p 0)))])))
+  | "big" =>
+    -- genomes far beyond 2^32 bases: nothing dense is built; records (`get_data`), per-chromosome sums, interval rows
+    let sizes ← getNatList j "sizes"
+    let recs ← toCRecs (← getIntListList j "recs")
+    let ivs ← getNatListList j "ivs"
+    let r := leafTrack sizes recs
+    let sl := chromSlices sizes r
+    let data : List (List Int) := (sl.zipIdx.map (fun (s, i) =>
+      (dataRecs s).map (fun x => [(i : Int), (x.1 : Int), (x.2.1 : Int), x.2.2]))).flatten
+    let offs := offsets sizes
+    let rows ← ivs.mapM (fun l => match l with
+      | [c, a, b] => (pure (offs.getD c 0 + a, offs.getD c 0 + b, true) : Except String (Nat × Nat × Bool))
+      | _ => throw "interval must be [chrom, start, stop]")
+    pure (reply (Json.mkObj [("data", intListList data), ("sum", int (sumRle r)),
+      ("chrom_sums", intList (sl.map sumRle)), ("chrom_len", natList (sl.map Rle.len)),
+      ("rows", intListList (extractRows r rows false))]))
   | _ => throw s!"C09: unknown op {op}"
 
 end Drv.C09
